@@ -33,8 +33,8 @@ m = {
     "engines": [
         {"name": "symx", "path": "/verif/symx", "serves_properties": sorted(CHECKS),
          "kind_free_text": "bit-vector symbolic executor for the real Python source on z3 (decision-tree re-execution, shadow-compiled bytes/CRC models, path-wise concrete validation)"},
-        {"name": "crosshair", "path": "/verif/.venv (crosshair-tool 0.0.110 from the wheelhouse)", "serves_properties": [p for p, c in CHECKS.items() if "crosshair" in c.get("engine", "")],
-         "kind_free_text": "off-the-shelf symbolic execution of Python on z3; float lemma and engine differential"},
+        {"name": "crosshair", "path": "/verif/.venv (crosshair-tool 0.0.110 from the wheelhouse)", "serves_properties": [p for p, c in CHECKS.items() if "CrossHair" in c.get("technique", "")],
+         "kind_free_text": "off-the-shelf symbolic execution of Python on z3; used for the float lemma of C05 only"},
     ],
     "checks": checks,
     "not_applicable": na,
